@@ -3,6 +3,13 @@ use thiserror::Error as ThisError;
 
 #[derive(Serialize, Deserialize, PartialEq, Eq, Clone, ThisError, Debug)]
 pub enum HttpError {
+    #[error("URL parse error: {0}")]
+    Url(String),
+    #[error("IO error: {0}")]
+    Io(String),
+    #[error("Timeout")]
+    Timeout,
+    // skipped variants go last, so that serialized and deserialized variant indices agree
     #[error("HTTP error {code}: {message}")]
     #[serde(skip)]
     Http {
@@ -13,12 +20,6 @@ pub enum HttpError {
     #[error("JSON serialisation error: {0}")]
     #[serde(skip)]
     Json(String),
-    #[error("URL parse error: {0}")]
-    Url(String),
-    #[error("IO error: {0}")]
-    Io(String),
-    #[error("Timeout")]
-    Timeout,
 }
 
 impl From<http_types::Error> for HttpError {
